@@ -69,6 +69,8 @@ def cases_of(lib, rows_ok=None, results_ok=None):
         rows = list(f["params"])
         if rows[:1] == ["arr_in"]:
             ps = [K.P("arr_in", "arr", m="n"), K.P("arr_n", "n", a="arr")]
+        elif rows[:1] == ["cstrv_in"]:
+            ps = [K.P("cstrv_in", "names", m="n"), K.P("out_n", "n")]
         elif rows[:1] == ["arr_out"]:
             ps = [K.P("arr_out", "arr", m="n"), K.P("out_n", "n")]
         else:
@@ -517,7 +519,7 @@ def wide_library(rows=None, class_=True, defaults=False, **opts):
 
 
 STR_ROWS = {"cstr_in", "tdstr_in", "str_cref", "str_ref_inout", "str_ref_out"}
-STR_RESULTS = {"cstr", "str_cref"}
+STR_RESULTS = {"cstr", "str_cref", "char1", "char3"}
 VEC_BUF_ROWS = {"vec_in", "vec_inout", "vec_out_alloc", "vec_inout_alloc"}
 CDESC_RESULTS = {"iptr3", "iptr23"}
 
@@ -534,6 +536,9 @@ def cfi_conflict(f):
 def known_cause(lib, f):
     """The recorded finding (KNOWN_FINDINGS.txt, property C05) a function of a LibGen description runs into, or None.
     Findings with many faces are recognised by the shape of the function, not by a compiler's wording."""
+    if lib["opts"].get("F_CFI") and "cstrv_in" in f["params"]:
+        # F_CFI: a 'char **' argument makes arg_to_CFI clone the function although no CFI statements exist for it
+        return "cfi-char-array"
     if f.get("tmpl") and f.get("gen"):
         # the fortran_generic entries of a function template keep the template's parameter list: the instantiations
         # are wrapped with 'T' parameters again
@@ -572,8 +577,8 @@ def solo_libraries(rows=None, **opts):
     sets = cfg_sets()
     base = wide_library(**opts)
     out = []
-    single = sorted(sets["ParamRows"] - {"arr_in", "arr_n", "arr_out", "out_n"})
-    plists = [[r] for r in single] + [["arr_in", "arr_n"], ["arr_out", "out_n"]]
+    single = sorted(sets["ParamRows"] - {"arr_in", "arr_n", "arr_out", "out_n", "cstrv_in"})
+    plists = [[r] for r in single] + [["arr_in", "arr_n"], ["arr_out", "out_n"], ["cstrv_in", "out_n"]]
     for ps in plists:
         if rows is not None and not all(p in rows for p in ps):
             continue
